@@ -146,6 +146,24 @@ def qd_schedule(ctx):
     for m, n in allowed.items():
         if counts[m] < n:
             out.append(undecided('QD-schedule', 'floor:' + m, 'found %d `%s` sites, expected at least %d' % (counts[m], m, n)))
+    # whoever takes a queue's entries off the schedule claims the queue (or the queue no longer needs a runner): a Pending queue, or one
+    # abandoned in WaitingForPoll and offered to the pool, is reachable by pool threads only through its schedule entry
+    P = ctx.proto
+    viol = defaultdict(list)
+    for (r, fname, msg, loc) in P.viol:
+        if r == 'TOK-unschedule':
+            viol[fname].append((msg, loc))
+    nrem = 0
+    for fname, m, snaps in events_of(P, 'sched_remove'):
+        nrem += 1
+        key = '%s|%s-claims' % (short(fname), m)
+        if viol.get(fname):
+            msg, loc = viol[fname][0]
+            out.append(bad('QD-schedule', key, msg, loc=loc, fn=fname))
+        else:
+            out.append(ok('QD-schedule', key, 'entries are removed only on paths that claim the queue or leave it in a state that needs no entry', fn=fname))
+    if nrem < 1:
+        out.append(undecided('QD-schedule', 'floor:remove-claims', 'no removal from the schedule was seen by the protocol interpreter (expected claim_pending_queue)'))
     return out
 
 
